@@ -288,7 +288,7 @@ def gen_cases(ctx, n_per_mode):
     cases = []
     for mode in U.MODES:
         fixed = {
-            'logical': [([120, 100, 100, 2700], 0, 0), ([180, 50, 50, 2700], 2, 0), ([165, 100, 50, 2700], 2.5, 10),
+            'logical': [([120, 100, 100, 2700], 2, 0), ([180, 50, 50, 2700], 0, 0), ([165, 100, 50, 2700], 2.5, 10),
                         ([360, 100, 100, 3500], 1.5, 0), ([0, 0, 0, 0], 0, 0), ([359.5, 12.5, 87.5, 2700.5], 0.0005, 0.25)],
             'raw': [([30000, 65535, 32767, 2700], 2500, 10000), ([0, 0, 0, 0], 0, 0), ([65535, 65535, 65535, 9000], 1, 0),
                     ([11, 22, 33, 2500], 0, 0), ([100.5, 200.5, 65535.5, 2700.5], 2.5, 0.5)],
@@ -370,7 +370,8 @@ def end_to_end(ctx):
                 continue
             for k in kinds:
                 for o in ext[k]:
-                    observations.append({'ci': ci, 'world': wk, 'kind': k, 'on': on, 'obs': o, 'script': src})
+                    observations.append({'ci': ci, 'world': wk, 'kind': k, 'on': on, 'obs': o, 'script': src,
+                                         'case': (mode, color, d, t)})
             waits.append((ci, wk, mode, t, list(r.pauses), len(kinds), src))
     ctx.stage('scripts')
 
@@ -398,7 +399,7 @@ def end_to_end(ctx):
         else:
             key = (mode, fl(d), ob['on'], o[1], o[2])
             power_keys.setdefault(key, []).append(ob)
-    ckeys = sorted(color_keys, key=repr)
+    ckeys = list(color_keys)
     rendered = ['(%d, %s, %s, %s)' % (mi[k[0]], common.coq_list([coq_f(x) for x in k[1]]), coq_f(k[2]),
                                       common.coq_list([common.coq_z(int(z)) for z in list(k[3]) + [k[4]]])) for k in ckeys]
     verdicts = U.coq_eval('c07spec', SPEC_IMPORT, 'spec_color_cases', rendered, per_file=300)
@@ -418,9 +419,9 @@ def end_to_end(ctx):
                 sig = 'C07/matrix-cell-rounded-before-conversion' if prerounded_explains(mode, color, k[3]) else sig
             ctx.counterexample(sig, '%s in %s units with registers %r duration %r hands the light colour %r duration %r; verdict per integer %s (= nearest, ~ within 1e-9 of a tie, ! wrong)'
                                % (ob['kind'], mode, color, d, list(k[3]), k[4], v),
-                               {'script': ob['script'], 'world': ob['world'], 'kind': ob['kind'], 'mode': mode, 'registers': [repr(x) for x in color],
+                               {'script': minimal(worlds, ob), 'world': ob['world'], 'kind': ob['kind'], 'mode': mode, 'registers': [repr(x) for x in color],
                                 'duration': repr(d), 'observed': [list(k[3]), k[4]], 'verdict': v})
-    pkeys = sorted(power_keys, key=repr)
+    pkeys = list(power_keys)
     rendered = ['(%d, %s, %s, %s, %s)' % (mi[k[0]], coq_f(k[1]), common.coq_bool(k[2]), common.coq_z(int(k[3])), common.coq_z(int(k[4]))) for k in pkeys]
     verdicts = U.coq_eval('c07pow', SPEC_IMPORT, 'spec_power_cases', rendered, per_file=400)
     for k, v in zip(pkeys, verdicts):
@@ -435,7 +436,7 @@ def end_to_end(ctx):
             ctx.counterexample(sig, '`%s` in %s units with duration %r hands the light power %r duration %r (expected duration %s ms); verdict %s'
                                % (U.command_text(ob['kind'], ob['on']), mode, d, k[3], k[4],
                                   'the same number of' if mode == 'raw' else 'seconds*1000 =', v),
-                               {'script': ob['script'], 'world': ob['world'], 'kind': ob['kind'], 'mode': mode, 'duration': repr(d),
+                               {'script': minimal(worlds, ob), 'world': ob['world'], 'kind': ob['kind'], 'mode': mode, 'duration': repr(d),
                                 'observed': [k[3], k[4]], 'verdict': v})
     ctx.extra['oracle'] = {'distinct_colour_observations': len(ckeys), 'distinct_power_observations': len(pkeys),
                            'integers_equal_to_nearest': exact_agree, 'integers_accepted_within_1e-9_of_a_tie': tol_used}
@@ -504,6 +505,25 @@ def end_to_end(ctx):
     ctx.extra['kinds'] = U.KINDS
     non_finite(ctx, worlds)
     get_roundtrip(ctx, worlds)
+
+
+def minimal(worlds, ob):
+    """The smallest script that shows the same observation (falls back to the full one)."""
+    mode, color, d, t = ob['case']
+    src = script_for(mode, color, d, t if float(t) > 0 else None, [ob['kind']], ob['on'])
+    if not float(d):
+        src2 = script_for(mode, color, None, None, [ob['kind']], ob['on'])
+    else:
+        src2 = None
+    for cand in ([src2] if src2 else []) + [src]:
+        r = U.run_script(worlds[ob['world']], cand)
+        try:
+            ext = U.extract(ob['world'], r.calls, [ob['kind']])
+        except ValueError:
+            continue
+        if ob['obs'] in ext[ob['kind']]:
+            return cand
+    return ob['script']
 
 
 def prerounded_explains(mode, color, observed):
